@@ -77,3 +77,98 @@ def src_place_of_stmt(st):
 
 
 IDENT_CALLS = re.compile(r'clone::Clone::clone$|ops::Deref::deref$|borrow::Borrow::borrow$|convert::AsRef::as_ref$|borrow::ToOwned::to_owned$')
+
+
+def stmt_reads(st):
+    """places read by an assign statement"""
+    rv = st['rv']
+    r = rv['r']
+    out = []
+    if r in ('use', 'cast'):
+        ops = [rv['op']]
+    elif r == 'bin':
+        ops = [rv['a'], rv['b']]
+    elif r == 'un':
+        ops = [rv['a']]
+    elif r == 'agg':
+        ops = rv['ops']
+    else:
+        ops = []
+    for o in ops:
+        if o['k'] in ('copy', 'move'):
+            out.append(o['pl'])
+    if r in ('ref', 'rawptr', 'discr'):
+        out.append(rv['pl'])
+    # a write through a projection reads the base pointer
+    if st['lhs']['p'] and st['lhs']['p'][0] == '*':
+        out.append({'l': st['lhs']['l'], 'p': []})
+    return out
+
+
+def term_reads(t):
+    out = []
+    k = t['t']
+    ops = []
+    if k == 'switch':
+        ops = [t['on']]
+    elif k == 'call':
+        ops = list(t['args'])
+        if 'indirect' in t['callee']:
+            ops.append(t['callee']['indirect'])
+    elif k == 'assert':
+        ops = [t['cond']] + list(t['ops'])
+    for o in ops:
+        if isinstance(o, dict) and o.get('k') in ('copy', 'move'):
+            out.append(o['pl'])
+    return out
+
+
+def phi_stable(fn, defs, l):
+    """True when local l is never (re)defined after it may have been read: every definition
+    precedes every read on every path (assigned once per branch, then only read)."""
+    if l in defs.mut_borrowed or defs.partial.get(l):
+        return False
+    live = fn.live_blocks()
+    def_pos = []   # (block, index) index = stmt idx, or 10**6 for terminator
+    for d in defs.defs.get(l, []):
+        if d[0] == 'param':
+            def_pos.append((0, -1))
+        elif d[0] == 'assign':
+            b = d[1]
+            def_pos.append((b, fn.blocks[b]['st'].index(d[2])))
+        else:
+            def_pos.append((d[1], 10 ** 6))
+    read_pos = []
+    for b in live:
+        blk = fn.blocks[b]
+        for i, st in enumerate(blk['st']):
+            if st['s'] == 'assign' and any(pl['l'] == l for pl in stmt_reads(st)):
+                read_pos.append((b, i))
+        if any(pl['l'] == l for pl in term_reads(blk['term'])):
+            read_pos.append((b, 10 ** 6 - 1))
+        if blk['term']['t'] == 'drop' and blk['term']['pl']['l'] == l:
+            pass
+    # forward reachability from each read block's successors
+    reach_cache = {}
+
+    def fwd(b):
+        if b not in reach_cache:
+            seen = set()
+            st = list(fn.succ(b))
+            while st:
+                x = st.pop()
+                if x in seen or x not in live:
+                    continue
+                seen.add(x)
+                st.extend(fn.succ(x))
+            reach_cache[b] = seen
+        return reach_cache[b]
+
+    for (rb, ri) in read_pos:
+        after = fwd(rb)
+        for (db, di) in def_pos:
+            if db in after:
+                return False
+            if db == rb and di >= ri:
+                return False
+    return True
